@@ -50,6 +50,21 @@ func keyExchange(s int64, clock int64, extraClient bool) (secrets, string) {
 	return secrets{"nonce": w.Auth.Nonce, "new_nonce": w.Auth.NewNonce, "dh_exponent(g_b)": authsrv.Fixed(w.Auth.GB, 256)}, ""
 }
 
+// secureRandom: what the server sends along with the challenge (account.password.secure_random); it is chosen
+// by the server, so nothing derived from it alone is a secret
+var secureRandom []byte
+
+func srpWithServerRandom(n int) func(s int64, clock int64, extraClient bool) (secrets, string) {
+	return func(s int64, clock int64, extraClient bool) (secrets, string) {
+		secureRandom = make([]byte, n)
+		for i := range secureRandom {
+			secureRandom[i] = byte(i*29 + 3)
+		}
+		defer func() { secureRandom = nil }()
+		return srp(s, clock, extraClient)
+	}
+}
+
 func srp(s int64, clock int64, extraClient bool) (secrets, string) {
 	mrand.Seed(s)
 	vclock.Pin(clock)
@@ -65,7 +80,7 @@ func srp(s int64, clock int64, extraClient bool) (secrets, string) {
 	var res telegram.InputCheckPasswordSRP
 	var err error
 	if p, _, _ := vr.Try(func() {
-		res, err = telegram.GetInputCheckPassword("pw", &telegram.AccountPassword{SRPB: B, SRPID: 1,
+		res, err = telegram.GetInputCheckPassword("pw", &telegram.AccountPassword{SRPB: B, SRPID: 1, SecureRandom: secureRandom,
 			CurrentAlgo: &telegram.PasswordKdfAlgoSHA256SHA256PBKDF2HMACSHA512iter100000SHA256ModPow{Salt1: []byte("s1"), Salt2: []byte("s2"), G: 3, P: p.Bytes()}})
 	}); p && failAt > 0 {
 		return secrets{}, ""
@@ -85,7 +100,7 @@ func srp(s int64, clock int64, extraClient bool) (secrets, string) {
 
 func main() {
 	run := vr.New("C19", "exploration")
-	run.Rule("environment alphabet: global math/rand seed in {1, 2, 0x5eed} x pinned clock in {T0, T0+1s} x scenario {key exchange, key exchange after creating another client, SRP answer, SRP answer after creating a client} x fault {none, the 1st / 2nd / 3rd read of the OS random source fails}; each environment is run twice and all runs are compared pairwise; a secret that repeats is a violation, and so is any 8-byte window of a nonce that occurs twice anywhere in the 12 consecutive exchanges of a group; non-trivial = distinct (scenario, environment, secret) comparison")
+	run.Rule("environment alphabet: global math/rand seed in {1, 2, 0x5eed} x pinned clock in {T0, T0+1s} x scenario {key exchange, key exchange after creating another client, SRP answer, SRP answer after creating a client, SRP answer to a challenge that carries 8 / 256 bytes of server-chosen secure_random} x fault {none, the 1st / 2nd / 3rd read of the OS random source fails}; each environment is run twice and all runs are compared pairwise; a secret that repeats is a violation, and so is any 8-byte window of a nonce that occurs twice anywhere in the 12 consecutive exchanges of a group; non-trivial = distinct (scenario, environment, secret) comparison")
 	run.Assume("bytes from the OS source differ between runs with probability 1 - 2^-128, so a repeat is a reproducible derivation, not chance",
 		"LIMIT: this decides the property for the draw sites these drivers execute and for the reproducible inputs that are pinned (global math/rand state, the clock); a generator seeded from an input that is not pinned (pid, hostname) would pass, and paths no driver executes are not covered - provenance on all paths is a data-flow question outside this technique")
 	seeds := []int64{1, 2, 0x5eed}
@@ -98,7 +113,8 @@ func main() {
 		name string
 		f    func(s, c int64, extra bool) (secrets, string)
 		xtra bool
-	}{{"key-exchange", keyExchange, false}, {"key-exchange-after-new-client", keyExchange, true}, {"srp", srp, false}, {"srp-after-new-client", srp, true}} {
+	}{{"key-exchange", keyExchange, false}, {"key-exchange-after-new-client", keyExchange, true}, {"srp", srp, false}, {"srp-after-new-client", srp, true},
+		{"srp-with-8-byte-secure_random-from-the-server", srpWithServerRandom(8), false}, {"srp-with-256-byte-secure_random-from-the-server", srpWithServerRandom(256), false}} {
 		for _, fa := range []int64{0, 1, 2, 3} {
 			failAt = fa
 			if fa > 0 && scn.xtra {
